@@ -1,3 +1,4 @@
+pub mod c03;
 pub mod c07;
 pub mod c09;
 pub mod c10;
@@ -5,11 +6,13 @@ pub mod c11;
 pub mod c12;
 pub mod c13;
 pub mod c18;
+pub mod c19;
 
 use crate::simkit::Property;
 
 pub fn by_id(id: &str) -> Option<Box<dyn Property>> {
     match id {
+        "C03" => Some(Box::new(c03::C03)),
         "C07" => Some(Box::new(c07::C07)),
         "C09" => Some(Box::new(c09::C09)),
         "C10" => Some(Box::new(c10::C10)),
@@ -17,7 +20,8 @@ pub fn by_id(id: &str) -> Option<Box<dyn Property>> {
         "C12" => Some(Box::new(c12::C12)),
         "C13" => Some(Box::new(c13::C13)),
         "C18" => Some(Box::new(c18::C18)),
+        "C19" => Some(Box::new(c19::C19)),
         _ => None,
     }
 }
-pub const ALL: &[&str] = &["C07", "C09", "C10", "C11", "C12", "C13", "C18"];
+pub const ALL: &[&str] = &["C03", "C07", "C09", "C10", "C11", "C12", "C13", "C18", "C19"];
